@@ -29,6 +29,17 @@ def confusable_sets(names, maxsize=3):
             byk.setdefault("".join(sorted(names[i] for i in S)), []).append(list(S))
     return [v for v in byk.values() if len(v) > 1]
 
+def fresh(s):
+    """an equal string that is a different object (names arriving from files, f-strings or concatenation are never the caller's own objects)"""
+    return "".join(list(s)) if isinstance(s, str) and len(s) > 1 else s
+class FreshNames(list):
+    """a list of names whose items are handed out as fresh string objects on every access"""
+    def __getitem__(self, i):
+        x = list.__getitem__(self, i)
+        return [fresh(y) for y in x] if isinstance(i, slice) else fresh(x)
+    def __iter__(self): return (fresh(x) for x in list.__iter__(self))
+    def __add__(self, other): return FreshNames(list(list.__iter__(self)) + list(other))
+
 def mk_graph(n, edges, rng=None, style=None):
     """edges: list of (i, j, k) with i != j over ids 0..n-1 (ids are positions in sorted-name order)."""
     if style is None:
